@@ -50,12 +50,20 @@ def divisionCodes : List Str :=
 def monthNames : List Str :=
   [c!"JAN", c!"FEB", c!"MAR", c!"APR", c!"MAY", c!"JUN", c!"JUL", c!"AUG", c!"SEP", c!"OCT", c!"NOV", c!"DEC"]
 
+/-- the molecule types of the LOCUS line (INSDC /mol_type vocabulary as GenBank uses it) -/
+def molTypes : List Str :=
+  [c!"DNA", c!"genomic DNA", c!"genomic RNA", c!"mRNA", c!"tRNA", c!"rRNA", c!"other RNA", c!"other DNA",
+   c!"transcribed RNA", c!"viral cRNA", c!"unassigned DNA", c!"unassigned RNA"]
+
+/-- what a LOCUS line states.  Every field but the name may be absent (empty / `none`): a record
+assembled by a program need not have them, and a writer then leaves the field out. -/
 structure RLocus where
   name : Str
-  mol : MolType
-  topo : Topology
-  division : Nat            -- index into `divisionCodes`
-  date : Str                -- dd-MON-yyyy
+  len : Str := []                    -- the declared length: digits (not tied to the sequence), or absent
+  mol : Str := []                    -- one of `molTypes`, or absent
+  topo : Option Topology := none
+  division : Str := []               -- one of `divisionCodes`, or absent
+  date : Str := []                   -- dd-MON-yyyy, or absent
   deriving DecidableEq, Repr
 
 structure RRef where
@@ -107,6 +115,7 @@ structure FeatLayout where
 
 structure RecLayout where
   pads : List Nat := []          -- additional blanks (beyond one) in the six gaps of the LOCUS line
+  locusTrail : Nat := 0          -- blanks after the last field of the LOCUS line
   definition : List Nat := []
   accession : List Nat := []
   version : List Nat := []
@@ -209,9 +218,33 @@ def optBlock (kw : Str) (t : Str) (bs : List Nat) : List Str :=
 
 def gap (ℓ : RecLayout) (i : Nat) : Str := spaces (ℓ.pads.getD i 0 + 1)
 
-def locusLine (l : RLocus) (n : Nat) (ℓ : RecLayout) : Str :=
-  c!"LOCUS" ++ gap ℓ 0 ++ l.name ++ gap ℓ 1 ++ ofNat n ++ c!" bp" ++ gap ℓ 2 ++ l.mol.text ++ gap ℓ 3
-    ++ l.topo.text ++ gap ℓ 4 ++ divisionCodes.getD l.division [] ++ gap ℓ 5 ++ l.date
+/-- a token of the LOCUS line with the number of additional blanks before it; nothing when absent -/
+def optTok (pad : Nat) (t : Str) : List (Nat × Str) := if t = [] then [] else [(pad, t)]
+
+/-- the words of a molecule type, the first after the gap, the others after one blank -/
+def molToks (pad : Nat) (mol : Str) : List (Nat × Str) :=
+  if mol = [] then [] else
+  match splitC ' ' mol with
+  | [] => []
+  | w :: ws => (pad, w) :: ws.map fun x => (0, x)
+
+def topoText (t : Option Topology) : Str := match t with | some x => x.text | none => []
+
+/-- the tokens of the LOCUS line after the keyword, each with the additional blanks before it: name,
+length (when stated) and `bp`, molecule type, topology, division, date -/
+def locusToks (l : RLocus) (ℓ : RecLayout) : List (Nat × Str) :=
+  [(ℓ.pads.getD 0 0, l.name)]
+    ++ (if l.len = [] then [(ℓ.pads.getD 1 0, c!"bp")] else [(ℓ.pads.getD 1 0, l.len), (0, c!"bp")])
+    ++ molToks (ℓ.pads.getD 2 0) l.mol
+    ++ optTok (ℓ.pads.getD 3 0) (topoText l.topo)
+    ++ optTok (ℓ.pads.getD 4 0) l.division
+    ++ optTok (ℓ.pads.getD 5 0) l.date
+
+/-- `gap token gap token …` -/
+def gapped (ps : List (Nat × Str)) : Str := (ps.map fun p => spaces (p.1 + 1) ++ p.2).flatten
+
+def locusLine (l : RLocus) (ℓ : RecLayout) : Str :=
+  c!"LOCUS" ++ gapped (locusToks l ℓ) ++ spaces ℓ.locusTrail
 
 /-- text of the REFERENCE line: the number and, after two blanks, the range -/
 def refHead (i : Nat) (r : RRef) : Str :=
@@ -314,7 +347,7 @@ def extraRest (r : GbRec) (ℓ : RecLayout) : List Str :=
 
 /-- the lines of one record, `//` included -/
 def layout (r : GbRec) (ℓ : RecLayout) : List Str :=
-  [locusLine r.locus r.seq.length ℓ]
+  [locusLine r.locus ℓ]
   ++ extraSlot r ℓ 0
   ++ mblock ℓ.omitDefinition c!"DEFINITION" r.definition ℓ.definition
   ++ extraSlot r ℓ 1
@@ -348,10 +381,10 @@ def layoutFile (rs : List GbRec) (ℓ : FileLayout) : Str :=
 
 /-! ### what the record states -/
 
-def toLocus (l : RLocus) (n : Nat) : Genbank.Locus :=
-  { name := l.name, seqLength := ofNat n, molType := l.mol.text
-    division := divisionCodes.getD l.division [], date := l.date, coding := c!"bp"
-    circular := l.topo == .circular, linear := l.topo == .linear }
+def toLocus (l : RLocus) : Genbank.Locus :=
+  { name := l.name, seqLength := l.len, molType := l.mol
+    division := l.division, date := l.date, coding := if l.len = [] then [] else c!"bp"
+    circular := l.topo == some .circular, linear := l.topo == some .linear }
 
 def toRefs : Nat → List RRef → List Genbank.Reference
   | _, [] => []
@@ -361,7 +394,7 @@ def toRefs : Nat → List RRef → List Genbank.Reference
 def toFeature (f : RFeature) : Genbank.Feature := { type := f.key, gbkLoc := f.loc, attrs := f.quals }
 
 def toSequence (r : GbRec) : Genbank.Sequence :=
-  { md := { locus := toLocus r.locus r.seq.length
+  { md := { locus := toLocus r.locus
             definition := r.definition, accession := r.accession, version := r.version
             keywords := r.keywords, organism := r.organism, source := r.source
             references := toRefs 0 r.refs, other := r.extras }
@@ -385,7 +418,8 @@ def isDateText (d : Str) : Bool :=
   | _ => false
 
 def wfLocus (l : RLocus) : Bool :=
-  isLocusName l.name && l.division < divisionCodes.length && isDateText l.date
+  isLocusName l.name && l.len.all isDigit && (l.mol == [] || molTypes.contains l.mol)
+    && (l.division == [] || divisionCodes.contains l.division) && (l.date == [] || isDateText l.date)
 
 def wfRef (r : RRef) : Bool :=
   isText r.range && isText r.authors && isText r.title && isText r.journal && isText r.pubmed && isText r.remark
